@@ -32,7 +32,7 @@ structure Family where
   savesNsteps : Bool           -- `state` has the step counter
   savesStartStep : Bool
   restoresNsteps : Bool        -- `set_state(state)` reproduces the counter in a fresh instance
-  passesJumpInterval : Bool    -- the constructor honours `jump_interval`
+  passesJumpInterval : Bool    -- the constructor honours `jump_interval` and the configured duration (also with a later start step)
   digestRoundTrip : Bool       -- fresh.set_state(pickle(state)) reproduces every distribution field bit for bit
   snapshotStable : Bool        -- running on does not change an earlier `state` object
   loadDecoupled : Bool         -- running a proposal loaded from a state object changes neither that object nor its source
